@@ -51,6 +51,17 @@ def tus(tier, seed, table=None):
             res.append(dict(name='%s_p%d_%d_%s' % (table, path, idx, comp), src=body, compiler=comp,
                             defines=['CNL_VERIF_OVERFLOW_PATH=%d' % path]))
             idx += 1
+    # every one of the 100 operand type pairs, + - * under the saturated tag on the intrinsic path
+    # (the intrinsic branch has type-dependent fast paths); the portable path gets the same sweep in the thorough tier
+    allp = [(a, b) for a in CT for b in CT]
+    for path in ([1] if tier == 'quick' else [1, 2]):
+        for i in range(0, len(allp), 10):
+            body = '#define VH_TABLE "%s"\n#include "%s"\nint main(){ install(); Rng rng(seed_from_env()+%d);\n' % (
+                table, __file__.replace('C07.py', 'C06.py').replace('.py', '.h'), 800 + i)
+            for (a, b) in allp[i:i + 10]:
+                body += '  pair_arith<%s, %s, %s>(rng);\n' % (TAGS['sat'], CT[a], CT[b])
+            body += '}\n'
+            res.append(dict(name='%s_all_p%d_%d' % (table, path, i // 10), src=body, compiler='g++', defines=['CNL_VERIF_OVERFLOW_PATH=%d' % path]))
     # floating-point sources
     FT = {'f32': 'float', 'f64': 'double', 'f80': 'long double'}
     fc = [('sat', 'f32', 'i32'), ('sat', 'f64', 'i64'), ('thr', 'f32', 'u8'), ('trp', 'f64', 'u32'), ('sat', 'f80', 'i64'), ('sat', 'f32', 'i8'),
